@@ -87,6 +87,22 @@ theorem C03_n_active_counts (g : Goal) (T c : Nat) (hb : g.hasBounds = true) :
   · simp only [Goal.nActive, hb, Bool.and_self, if_true]
     exact_mod_cast Nat.le_max_right _ 1
 
+/-- non-vacuity: two members, a point minimisation goal with nominal 10 and a size-2 vector path
+    goal whose second component never has a finite target (guard `max(·,1)`), with
+    `scale_by_problem_size`: the objective is non-trivial and equals the documented value -/
+example :
+    let g1 : Goal := { size := 1, weight := 2, order := 1, nominal := [10],
+                       tmin := .scalar .nan, tmax := .scalar .nan, critical := false }
+    let g2 : Goal := { size := 2, weight := 1, order := 2, nominal := [1],
+                       tmin := .ts2 [[.fin 1, .nan], [.fin 2, .nan], [.nan, .nan]],
+                       tmax := .scalar .nan, critical := false }
+    let val : Val := fun isPath _ c m i => if isPath then (1 + c + m + i : Nat) / 4 else 5
+    objective true 3 [1/4, 3/4] val [g1] [g2] = 587/384
+      ∧ documented true 3 [1/4, 3/4] val [g1] [g2] = 587/384
+      ∧ g2.nActive true true 3 0 = 2 ∧ g2.nActive true true 3 1 = 1
+      ∧ nObjectives true 3 val 0 [g1] [g2] = 3 := by
+  decide +kernel
+
 /-! ## Part 2 — optimality certificate -/
 
 /-- **Weak duality for arbitrary multipliers.**  For the LP
